@@ -95,6 +95,18 @@ def state_check(sd, hist):
             for col, val in PCOL[m["letter"]].items():
                 if row.get(col) != val:
                     v.append(((PROP + ".params-shows", m["letter"], col, last), "%s: params() shows %r for %s, configured %r" % (n, row.get(col), col, val)))
+    if isinstance(li, dict):   # limits(): exactly the non-default limits each component was configured with
+        LIMCOL = {"vi": "vi  (V)", "pl": "pl  (W)", "tp": "tp  (°C)"}
+        for n, m in model["comps"].items():
+            row = li["rows"].get((n, 0))
+            if row is None:
+                continue
+            conf = {"vi": "[0.0, 1.0]", "pl": "[0.0, 1e-06]", "tp": "[0.0, 1000000.0]"} if m["letter"] == "W" else {}
+            for key, col in LIMCOL.items():
+                cell = row.get(col)
+                exp = conf.get(key, "")
+                if (json.dumps(json.loads(cell)) if isinstance(cell, str) and cell.startswith("[") else cell) != (json.dumps(json.loads(exp)) if exp else ""):
+                    v.append(((PROP + ".limits-shows", m["letter"], key, last), "%s: limits() shows %r for %s, configured %r" % (n, cell, key, exp or "default")))
     ph_rep = reps.get("phases")
     sysph = json.loads(model["phases"])
     if isinstance(ph_rep, dict) and sysph:
@@ -169,6 +181,9 @@ def main(tier):
     D, B = (2, 2) if tier == "quick" else (3, 2)
     if tier == "quick":  # budget 1 from every seed, budget 2 from the three richest seeds
         st = e2.explore(run, list(e2.SEEDS), 2, 1, letters="RIM", state_check=state_check, phase_ops=True, analysis_op=True)
+        stw = e2.explore(run, ["single", "freed"], 2, 1, letters="WI", state_check=state_check, phase_ops=False)
+        for k in ("states", "transitions", "rejected", "states_via_cc", "states_via_dc", "state_checks"):
+            st[k] += stw[k]
         st2 = e2.explore(run, ["rails"], 2, 2, letters="CI", state_check=state_check, phase_ops=True)
         for k in ("states", "transitions", "rejected", "states_via_cc", "states_via_dc", "state_checks"):
             st[k] += st2[k]
@@ -186,7 +201,7 @@ def main(tier):
     run.require(run.nontrivial > 100, "too few states reached through change/delete")
     _cw()
     return run.finish(
-        rule="E2: every distinct state (K_full) reached by histories of depth <= %d, budget <= %d from 8 seeds (quick: budget 1 from all 8 seeds over letters R,I,M and budget 2 from the rails seed over C,I) (edit + phase ops, re-adding deleted names, 3-input muxes, and a solve(energy=True) call in the middle of the history)%s; per state: reference edit semantics vs the structure read "
+        rule="E2: every distinct state (K_full) reached by histories of depth <= %d, budget <= %d from 10 seeds (quick: budget 1 from all 8 seeds over letters R,I,M and budget 2 from the rails seed over C,I) (edit + phase ops, re-adding deleted names, 3-input muxes, and a solve(energy=True) call in the middle of the history)%s; per state: reference edit semantics vs the structure read "
              "from the object (names, kinds, parameters, parent lists with PMux priority order, rails, groups, phase configs, system phases), all 8 reports succeed, and all reports equal "
              "(keyed, 1e-9) those of a fresh system built from that structure in canonical order -- for the plain history and for every placement of a solve(energy)/save/make_diag bundle between its ops (after the seed, between the ops). non-trivial = states first reached through change_comp / del_comp." % (
                  D, B, "" if tier == "quick" else "; plus depth 4, budget 1 over 3 letters from the mux and freed-index seeds"),
